@@ -95,7 +95,13 @@ def gen_cases(rnd, tier):
         c = rnd.random()
         try:
             if c < 0.2:
-                closes = [i for i, ch in enumerate(sml) if ch == ">"]
+                # closing brackets only: a '>' inside a quoted run is text (to_sml never prints '"' inside a run)
+                closes, quoted = [], False
+                for i, ch in enumerate(sml):
+                    if ch == '"':
+                        quoted = not quoted
+                    elif ch == ">" and not quoted:
+                        closes.append(i)
                 if closes:
                     i = rnd.choice(closes)
                     lits.append(("missing_close", case_text(sml[:i] + sml[i + 1 :], 1)))
